@@ -2,6 +2,7 @@ package main
 
 import (
 	"fmt"
+	ctok "github.com/pip-services3-gox/pip-services3-expressions-gox/calculator/tokenizers"
 	"strings"
 
 	cerr "github.com/pip-services3-gox/pip-services3-commons-gox/errors"
@@ -64,7 +65,6 @@ var exprVocabCore = []string{"1", "a", "(", ")", "[", "]", ",", "AND", "NOT", "=
 
 // vocabByText must distinguish the keyword AND (Keyword token) from the word "and"/"NULL"/"not"/"+" (Word tokens): the word
 // entries are addressed with a "w:" prefix in the texts lists
-
 
 func vocabByText(text string) vocab {
 	if strings.HasPrefix(text, "w:") {
@@ -150,6 +150,20 @@ func lexKind(t *tokenizers.Token) (string, string) {
 	return "Unknown", ""
 }
 
+// lexTokens: the lexical tokens of an expression text, from a separate tokenizer configured like the parser's own
+func lexTokens(text string) []*tokenizers.Token {
+	var lt []*tokenizers.Token
+	guarded(func() {
+		tk := ctok.NewExpressionTokenizer()
+		tk.SetSkipWhitespaces(true)
+		tk.SetSkipComments(true)
+		tk.SetSkipEof(true)
+		tk.SetDecodeStrings(true)
+		lt = tk.TokenizeBuffer(text)
+	})
+	return lt
+}
+
 func errCode(err error) string {
 	if ae, ok := err.(*cerr.ApplicationError); ok {
 		return ae.Code
@@ -163,6 +177,9 @@ func errCode(err error) string {
 // event input: entry, texts (list of vocabulary texts; constants/variables are made distinct by position)
 func execC02(seg []Ev) []Ev {
 	out := make([]Ev, 0, len(seg))
+	// one parser per segment: single-event segments observe a fresh parser (every observation reproducible in isolation),
+	// multi-event segments a long-lived one that must keep judging every input by the grammar alone
+	p := parsers.NewExpressionParser()
 	for _, in := range seg {
 		entry := toStr(in["entry"])
 		var texts []string
@@ -197,12 +214,15 @@ func execC02(seg []Ev) []Ev {
 			lex = append(lex, tokenizers.NewToken(v.typ, text, 1, i+1))
 			toks = append(toks, []string{v.kind, ktext})
 		}
-		// a fresh parser per case: every observation must be reproducible in isolation (history independence is C05's subject)
-		p := parsers.NewExpressionParser()
 		var err error
+		parsedText := ""
 		oc, det := guarded(func() {
 			if entry == "tokens" {
 				err = p.ParseTokens(lex)
+			} else if entry == "expr" {
+				// the text the parser itself reports for what it holds, parsed again by the same parser
+				parsedText = p.Expression()
+				err = p.ParseString(parsedText)
 			} else {
 				var sb strings.Builder
 				for i, t := range lex {
@@ -217,13 +237,17 @@ func execC02(seg []Ev) []Ev {
 						sb.WriteString(t.Value())
 					}
 				}
-				err = p.ParseString(sb.String())
+				parsedText = sb.String()
+				err = p.ParseString(parsedText)
 			}
 		})
-		if entry == "string" && oc == "ok" {
-			// what the parser actually received from its lexer
+		if entry != "tokens" {
+			e["text"] = parsedText
+		}
+		if entry != "tokens" && oc == "ok" {
+			// the lexical tokens of that text, from a separate tokenizer of the parser's kind
 			toks = toks[:0]
-			for _, t := range p.OriginalTokens() {
+			for _, t := range lexTokens(parsedText) {
 				k, tx := lexKind(t)
 				if k == "" {
 					continue
@@ -307,6 +331,82 @@ func genC02(g *Gen) {
 		}
 	}
 	rec2(nil)
+	// deep nesting: grouping, calls and indexing nested far beyond any fixed small bound
+	for _, d := range []int{64, 100, 200, 201, 256, 1001, 1025} {
+		if d > g.Pick(260, 2000) {
+			continue
+		}
+		mk := func(open, inner, close []string) []string {
+			var ts []string
+			for i := 0; i < d; i++ {
+				ts = append(ts, open...)
+			}
+			ts = append(ts, inner...)
+			for i := 0; i < d; i++ {
+				ts = append(ts, close...)
+			}
+			return ts
+		}
+		run("deep nesting", "tokens", mk([]string{"("}, []string{"1"}, []string{")"}))
+		run("deep nesting", "string", mk([]string{"("}, []string{"1", "+", "a"}, []string{")"}))
+		run("deep nesting", "tokens", mk([]string{"a", "("}, []string{"1"}, []string{")"}))
+		run("deep nesting", "tokens", mk([]string{"-", "("}, []string{"a"}, []string{")", "[", "1", "]"}))
+		run("deep nesting", "tokens", mk([]string{"NOT"}, []string{"a"}, nil))
+		run("deep nesting", "tokens", mk([]string{"("}, []string{"1"}, []string{")"})[:2*d]) // one ')' short
+		long := []string{"1"}
+		for i := 0; i < d; i++ {
+			long = append(long, []string{"+", "*", "AND", "="}[i%4], "a")
+		}
+		run("long chains", "tokens", long)
+		args := []string{"a", "("}
+		for i := 0; i < d; i++ {
+			if i > 0 {
+				args = append(args, ",")
+			}
+			args = append(args, "1")
+		}
+		run("long argument lists", "tokens", append(args, ")"))
+	}
+	// one long-lived parser: many rejected inputs, then sentences; a text re-parsed by the parser that composed it
+	rr := g.Rand()
+	for rep := 0; rep < g.Pick(2, 6); rep++ {
+		var seg []Ev
+		add := func(entry string, texts ...string) {
+			tl := make([]any, len(texts))
+			for i, t := range texts {
+				tl[i] = t
+			}
+			seg = append(seg, Ev{"op": "parse", "entry": entry, "texts": tl})
+		}
+		bad := [][]string{{"(", "1", "+"}, {"(", "(", "(", "1", "+"}, {"a", "(", "1", ","}, {"1", "["}, {"(", "(", "a", ")"}, {"1", "1"}, {")"}, {"a", "(", "(", "(", "("}, {"NOT"}, {"(", "-"}}
+		n := g.Pick(300, 1300)
+		for i := 0; i < n; i++ {
+			b := bad[rr.Intn(len(bad))]
+			add([]string{"tokens", "string"}[rr.Intn(2)], b...)
+			if i%97 == 96 || i == n-1 {
+				add("tokens", "(", "1", "+", "a", ")", "*", "a", "(", "1", ",", "(", "a", ")", ")")
+				add("string", "(", "1", "+", "a", ")", "*", "a", "(", "1", ",", "(", "a", ")", ")")
+			}
+		}
+		g.Run("one long-lived parser: rejected inputs in between", seg)
+	}
+	for i := 0; i < g.Pick(300, 3000); i++ {
+		ts := randomSentence(g, rr.Intn(3))
+		if len(ts) == 0 || len(ts) > 40 {
+			continue
+		}
+		tl := make([]any, len(ts))
+		for j, t := range ts {
+			tl[j] = t
+		}
+		ts2 := randomSentence(g, rr.Intn(3))
+		tl2 := make([]any, len(ts2))
+		for j, t := range ts2 {
+			tl2[j] = t
+		}
+		g.Run("the composed text re-parsed by the same parser", []Ev{{"op": "parse", "entry": "tokens", "texts": tl}, {"op": "parse", "entry": "expr", "texts": []any{}},
+			{"op": "parse", "entry": "string", "texts": tl2}, {"op": "parse", "entry": "expr", "texts": []any{}}, {"op": "parse", "entry": "tokens", "texts": tl2}})
+	}
 	// token-level mutations of generated valid expressions
 	r := g.Rand()
 	n := g.Pick(6000, 150000)
